@@ -22,7 +22,7 @@ from ..pestsym import Item, SymList, first_token, sections, token, total
 from ..report import where_of
 from ..source import AnalysisError, dotted_name
 from ..sqlmodel import conjuncts
-from .c17 import column_role, strip_tolist, vector_dumps
+from .c17 import resolve_vector, column_role, strip_tolist, vector_dumps
 
 PST_HEADERS = ["* control data", "* parameter groups", "* parameter data", "* observation groups",
                "* observation data", "* model command line", "* model input/output", "* prior information"]
@@ -492,7 +492,11 @@ def simulate_direction(ctx, view):
         return None
     for wcall, marker, dump in vector_dumps(ctx, dumpf):
         if dump is not None and dump.args:
-            core, rev = strip_tolist(dump.args[0])
+            core, rev = resolve_vector(Flow.of(dumpf), dump.args[0])
+            if not isinstance(core, ast.Name):
+                return None          # converted / reordered by something this rule does not read
+            if rev == "by-value":
+                return "BY-VALUE", marker
             return ("DESC" if qdir == "ASC" else "ASC") if rev else qdir, marker
     return None
 
